@@ -43,6 +43,9 @@ func (vc *VC) prodTerm(x, y string) string {
 		vc.trusted["prodfact:"+t] = true
 		m1 := new(big.Int).Sub(pow2(64), big.NewInt(1)).String()
 		vc.assume(sAnd(app("<=", "0", t), app("<=", t, app("*", m1, x)), app("<=", t, app("*", m1, y))))
+		if x != y {
+			vc.assume(sEq(t, app("prod", y, x))) // commutativity instance
+		}
 	}
 	return t
 }
